@@ -27,6 +27,7 @@ FN = V.interpolate_bad_channels
 
 
 @harness(PROPERTY, "interpolate_iteration", functions=["ibldsp.voltage:interpolate_bad_channels"],
+         replay=lambda vals, oid: (lambda b: {"failed": bool(b[0]), "cases": [repr(x)[:160] for x in b[0][:3]]})(native_interp(np.random.default_rng(4), 1, 10)),
          clause="interpolating bad channels changes only channels labelled dead or noisy; sources are good or outside-brain channels; zeros when it has none")
 def h_interp(H):
     S = H.session("interp")
@@ -67,6 +68,11 @@ def h_interp(H):
         except I.ContinueEx:
             zero_path = True
         snaps = {}
+        if zero_path:
+            t0 = z3.Int("t")
+            # whatever the route to the next channel: a channel left without replacement is a channel set to zero (never one left with its bad data)
+            it.ctx.oblige("interp.skipped_channel_is_zeroed", A.forall([t0], lambda: z3.Implies(z3.And(t0 >= 0, t0 < ns), data.read((i, t0)) == 0)), "post",
+                          "replaced by zeros when it has no source: the iteration is only abandoned after the channel was zeroed", assume=False)
         sums0 = [e for e in getattr(it.ctx, "reduce_log", [])[n_red0:] if e["name"] == "sum" and len(e["in_shape"]) == 1]
         if sums0 and it.ctx.entails(A.T(sums0[0]["in_shape"][0]) == nc):
             snaps["w_cut"] = sums0[0]["input"]
@@ -126,10 +132,11 @@ def h_interp(H):
 
 # ----------------------------------------------------------------------------- bounded
 def native_interp(rng, version, ncases):
-    h = neuropixel.trace_header(version=version)
+    h0 = neuropixel.trace_header(version=version)
     bad = []
     short = []
     for case in range(ncases):
+        h = h0
         labels = np.zeros(384)
         nb = int(rng.integers(1, 25))
         labels[rng.choice(384, nb, replace=False)] = rng.choice([1, 2], nb)
@@ -139,8 +146,17 @@ def native_interp(rng, version, ncases):
         if rng.random() < 0.3:
             s = int(rng.integers(0, 370))
             labels[s:s + 6] = 1
+        hx, hy = h["x"], h["y"]
+        if case % 5 == 1:
+            # a block of bad channels wide enough for its middle to have no usable neighbour at all
+            s = int(rng.integers(0, 384 - 30))
+            labels[s:s + 28] = rng.choice([1, 2], 28)
+        if case % 5 == 3:
+            # a sparse layout (sites 100 um apart): no channel has a neighbour within reach
+            hx, hy = np.zeros(384), np.arange(384) * 100.0
         data = rng.uniform(4.0, 6.0, (384, 30))
-        out = V.interpolate_bad_channels(data.copy(), labels, h["x"], h["y"])
+        out = V.interpolate_bad_channels(data.copy(), labels, hx, hy)
+        h = dict(h, x=hx, y=hy)
         keep = ~np.isin(labels, (1, 2))
         if not np.array_equal(out[keep], data[keep]):
             bad.append(("frame", case))
@@ -222,7 +238,7 @@ def native_detect(rng, nrand):
     return bad, first
 
 
-@bounded(PROPERTY, "native_repair_and_detection", bound="interpolate_bad_channels on NP1 / NP2 / NPultra headers, 20 random label vectors each (thorough 200) incl. clusters, probe ends and top blocks 0..40: frame, zero fall-back, range of the sources; "
+@bounded(PROPERTY, "native_repair_and_detection", bound="interpolate_bad_channels on NP1 / NP2 / NPultra headers, 20 random label vectors each (thorough 200) incl. clusters (also 28 adjacent bad channels), a 100 um sparse layout, probe ends and top blocks 0..40: frame, zero fall-back, range of the sources; "
          "detect_bad_channels on a coherent AP-band background with one silent / one noisy channel at both probe ends (0, 1, 3, 5, 378, 380, 382, 383 / 0, 2, 381, 383) and random positions, a silent top block of 8..40, also under a slow common-mode component shared by all channels (20 cases, thorough 117); per-file mode with a stubbed detector",
          clause="convex combination stays within the sources' range; injected faults are labelled; labels from a file are the per-channel mode")
 def b_native(B):
@@ -254,6 +270,24 @@ def b_native(B):
             flags = V.detect_bad_channels_cbin(SR(), n_batches=10)
     want_mode = [0, 1, 2, 3, 2, 0]
     B.case("cbin_mode", np.array_equal(np.ravel(flags), want_mode), detail=f"labels from the file {np.ravel(flags).tolist()} instead of the per-channel mode {want_mode}")
+    # the same on recordings shorter than n_batches x batch_duration (batches overlap): every batch votes, and nothing else does
+    for rl_, nb_, bd_ in ((1.2, 10, 0.3), (0.75, 6, 0.25), (2.0, 10, 0.3), (0.31, 5, 0.3)):
+        seq2 = iter(list(table[:nb_]))
+        asked = []
+
+        class SR2:
+            nc, nsync, fs, rl = 7, 1, 30000.0, rl_
+
+            def __getitem__(self, idx):
+                asked.append(idx[0])
+                return np.zeros((int(bd_ * 30000), 6))
+        with um.patch.object(V, "detect_bad_channels", lambda raw, fs: (next(seq2), {"a": np.zeros(6)})):
+            with um.patch.object(V.spikeglx, "Reader", SR2):
+                flags2 = V.detect_bad_channels_cbin(SR2(), n_batches=nb_, batch_duration=bd_)
+        import scipy.stats
+        want2 = np.ravel(scipy.stats.mode(table[:nb_].T, axis=1)[0])
+        B.case(("cbin_mode_short_recording", rl_, nb_, bd_), len(asked) == nb_ and np.array_equal(np.ravel(flags2), want2),
+               detail={"batches_read": len(asked), "requested": nb_, "labels": np.ravel(flags2).tolist(), "mode_over_the_batches": want2.tolist()})
 
 
 # ----------------------------------------------------------------------------- detect_bad_channels: the recommendation tail
@@ -316,15 +350,27 @@ def h_detect_tail(H):
 @harness(PROPERTY, "cbin_mode_over_batches", functions=["ibldsp.voltage:detect_bad_channels_cbin"],
          clause="labels computed from a file are the per-channel mode over its batches")
 def h_cbin_mode(H):
+    _cbin_mode(H, False)
+
+
+@harness(PROPERTY, "cbin_mode_short_recording", functions=["ibldsp.voltage:detect_bad_channels_cbin"],
+         clause="labels computed from a file are the per-channel mode over its batches: also for a 1.2 s snippet, shorter than the requested batches side by side")
+def h_cbin_mode_short(H):
+    _cbin_mode(H, True)
+
+
+def _cbin_mode(H, short):
     import scipy.stats
-    S = H.session("cbin_mode")
+    S = H.session("cbin_mode" + (".short_recording" if short else ""))
     FD = V.detect_bad_channels_cbin
 
-    def body(it):
+    def body(it, short=short):
         nc, ns = z3.Ints("nc nsamples")
         fs, rl = z3.Reals("fs rl")
         nb = 10
         it.ctx.assume(z3.And(nc >= 1, fs > 0, rl > 1, ns >= 1))
+        if short:
+            rl = z3.RealVal("6/5")          # a 1.2 s snippet: shorter than 10 batches of 0.3 s side by side (the batches overlap)
         calls, modes = [], []
 
         class FakeReader:
